@@ -8,18 +8,7 @@ use proptest::prelude::*;
 use proptest::strategy::BoxedStrategy;
 use serde::{Deserialize, Serialize};
 
-#[derive(Clone, Debug, PartialEq, Eq, Serialize, Deserialize)]
-pub struct Seed {
-    pub class: String,
-    #[serde(with = "crate::hexser")]
-    pub bytes: Vec<u8>,
-}
-
-impl Seed {
-    pub fn is_zero(&self) -> bool {
-        self.bytes.iter().all(|&b| b == 0)
-    }
-}
+pub use crate::ops::{Ctor, GenSpec, Op, SeedBytes as Seed};
 
 /// the seeds used by the crates' own tests (anchors; counted as trivial)
 pub fn anchor_seeds(ty: Ty) -> Vec<Vec<u8>> {
@@ -132,26 +121,6 @@ pub fn seed_for(ty: Ty, allow_zero: bool) -> BoxedStrategy<Seed> {
     seed_bytes(info.seed_len, info.word, anchor_seeds(ty), allow_zero)
 }
 
-#[derive(Clone, Debug, PartialEq, Eq, Serialize, Deserialize)]
-pub enum Op {
-    U32,
-    U64,
-    Fill(usize),
-    Jump,
-    LongJump,
-}
-
-impl Op {
-    pub fn kind(&self) -> u8 {
-        match self {
-            Op::U32 => 0,
-            Op::U64 => 1,
-            Op::Fill(_) => 2,
-            Op::Jump => 3,
-            Op::LongJump => 4,
-        }
-    }
-}
 
 /// fill lengths: 0; 1..8; 9..64; around the block size of the type; up to `big`
 pub fn fill_len(info: &Info, big: usize) -> BoxedStrategy<usize> {
@@ -365,4 +334,40 @@ pub fn timer_prog(hostile: bool, max_segs: usize) -> BoxedStrategy<TimerProg> {
     (start, vec(seg(hostile), 0..=max_segs), any::<u64>())
         .prop_map(|(start, segs, salt)| TimerProg { start, segs, salt })
         .boxed()
+}
+
+// ---------------------------------------------------------------------------------------------
+// generator specifications
+
+pub fn det_spec(ty: Ty, allow_zero: bool) -> BoxedStrategy<GenSpec> {
+    prop_oneof![
+        6 => seed_for(ty, allow_zero).prop_map(move |s| GenSpec::Det { ty, ctor: Ctor::Seed(s) }),
+        1 => interesting_u64().prop_map(move |x| GenSpec::Det { ty, ctor: Ctor::U64(x) }),
+    ]
+    .boxed()
+}
+
+pub fn jitter_rounds() -> BoxedStrategy<u8> {
+    prop_oneof![16 => 1u8..=4, 3 => 5u8..=16, 1 => Just(64u8), 1 => Just(255u8), 1 => 17u8..=255].boxed()
+}
+
+pub fn jitter_spec(hostile: bool) -> BoxedStrategy<GenSpec> {
+    (timer_prog(hostile, 12), jitter_rounds())
+        .prop_map(|(p, rounds)| GenSpec::Jitter { script: p.script(), rounds })
+        .boxed()
+}
+
+/// any of the 19 deterministic types or a scripted JitterRng
+pub fn any_spec(ty: Ty) -> BoxedStrategy<GenSpec> {
+    if ty == Ty::Jitter {
+        jitter_spec(true)
+    } else {
+        det_spec(ty, true)
+    }
+}
+
+pub fn all_types_with_jitter() -> Vec<Ty> {
+    let mut v = Ty::ALL.to_vec();
+    v.push(Ty::Jitter);
+    v
 }
